@@ -164,11 +164,11 @@ pub fn subs() -> Vec<Sub> {
     vec![
         Sub { prop: "C06", name: "structures-4", rule: "every tree with <= 4 nodes over {definite, indefinite} x {array, map} x tag x {chunked/definite strings, scalars}: skip position == item length for 3 suffixes, agreement with a full-decoding walker, every strict prefix is an error, step budget 64*len+1024; non-trivial = has a container",
               kind: Kind::Enumerate { quick: n4, thorough: n4, f: structures4, complete_quick: true, complete_thorough: true } },
-        Sub { prop: "C06", name: "structures-5", rule: "same with <= 5 nodes (thorough; quick explores the first 60000)",
-              kind: Kind::Enumerate { quick: 60_000.min(n5), thorough: n5, f: structures5, complete_quick: false, complete_thorough: true } },
+        Sub { prop: "C06", name: "structures-5", rule: "same with <= 5 nodes (thorough; quick explores the first 400000)",
+              kind: Kind::Enumerate { quick: 400_000.min(n5), thorough: n5, f: structures5, complete_quick: false, complete_thorough: true } },
         Sub { prop: "C06", name: "random-trees", rule: "grammar-generated trees (depth <= 8, all framings) + 0-8 arbitrary suffix bytes; prefixes sampled for long items; distinct by encoding",
-              kind: Kind::Random { quick: 100_000, thorough: 4_000_000, tape: 1024, f: random_trees } },
+              kind: Kind::Random { quick: 500_000, thorough: 4_000_000, tape: 1024, f: random_trees } },
         Sub { prop: "C06", name: "chains", rule: "byte-level nesting chains to depth 10^4 (8 opener kinds incl. definite parents with later siblings -> counting-to-stack switch, indefinite maps, tags), validated by the iterative reference parser; distinct by encoding",
-              kind: Kind::Random { quick: 4_000, thorough: 100_000, tape: 10_100, f: chains } },
+              kind: Kind::Random { quick: 20_000, thorough: 100_000, tape: 10_100, f: chains } },
     ]
 }
